@@ -482,33 +482,20 @@ func main() {
 	fmt.Fprintf(&out, "/-- assignments to package-level variables inside function bodies, as func:var -/\ndef stackGlobalWrites : List String := [%s]\ndef internalGlobalWrites : List String := [%s]\n\n", quoteAll(st.globalWrites()), quoteAll(in.globalWrites()))
 
 	fmt.Fprintf(&out, "/-- functions containing a `go` statement -/\ndef stackGoStmts : List String := [%s]\ndef internalGoStmts : List String := [%s]\n\n", quoteAll(st.goStmts()), quoteAll(in.goStmts()))
-	// every function of the package is considered reachable from Aggregate /
-	// ToHTML / the console writers, except the ones that build or complete a
-	// snapshot while scanning (they mutate by design and are not called later):
-	// a new helper added to a merge or render path is therefore covered.
-	scanTime := map[string]bool{}
-	for _, n := range []string{"ScanSnapshot", "DefaultOpts", "Opts.isValid", "Snapshot.guessPaths", "Snapshot.augment", "Snapshot.findRoots",
-		"scanningState.scan", "parseFunc", "parseArgs", "parseFile", "isFramesElidedLine", "hasPrefix", "hasSrcPrefix", "getFiles", "splitPath", "isFile", "isRootedIn",
-		"gomodCache.isGoModule", "getGOPATHs", "atou", "trimLeftSpace", "trimCurlyBrackets", "unsafeString",
-		"reader.fill", "reader.buffered", "reader.readSlice", "reader.readLine",
-		"Func.Init", "Call.init", "Call.updateLocations", "Stack.updateLocations", "Signature.updateLocations", "nameArguments", "sortedByLen", "pathJoin",
-		"uint64Slice.Len", "uint64Slice.Swap", "uint64Slice.Less",
-		"cacheAST.augmentGoroutine", "cacheAST.loadFile", "lineToByteOffsets", "parsedFile.getFuncAST", "name", "fieldToType", "extractArgumentsType", "augmentCall",
-		"state.String", "Location.String"} {
-		scanTime[n] = true
+	// the functions reachable (by calls or references) from Aggregate, ToHTML,
+	// the methods the HTML template calls by name, and the console writers: a new
+	// helper added to a merge or render path is covered automatically, a helper
+	// of the scanner is not.
+	stackFns := st.reachable([]string{"Snapshot.Aggregate", "Aggregated.ToHTML", "Snapshot.ToHTML", "Snapshot.IsRace",
+		"Arg.String", "Args.String", "Signature.SleepString", "Func.String", "Location.String"})
+	internalFns := in.reachable([]string{"writeBucketsToConsole", "writeGoroutinesToConsole", "Palette.BucketHeader", "Palette.GoroutineHeader",
+		"Palette.StackLines", "Palette.callLine", "calcBucketsLengths", "calcGoroutinesLengths"})
+	var reach []string
+	for n := range stackFns {
+		reach = append(reach, n)
 	}
-	stackFns := map[string]bool{}
-	for _, n := range st.funcNames() {
-		if !scanTime[n] {
-			stackFns[n] = true
-		}
-	}
-	internalFns := map[string]bool{}
-	for _, n := range in.funcNames() {
-		if n != "Main" && n != "process" && n != "processInner" && n != "toHTML" && n != "showBanner" {
-			internalFns[n] = true
-		}
-	}
+	sort.Strings(reach)
+	fmt.Fprintf(&out, "/-- functions of package stack reachable from Aggregate / ToHTML / String methods -/\ndef stackRenderReachable : List String := [%s]\n", quoteAll(reach))
 	fmt.Fprintf(&out, "/-- writes through anything but a plain local in the functions reachable from Aggregate / ToHTML / the console writers: func | expression | origin of the root variable -/\ndef stackWriteSet : List String := [%s]\ndef internalWriteSet : List String := [%s]\n", quoteAll(st.writeSet(stackFns)), quoteAll(in.writeSet(internalFns)))
 	fmt.Fprintf(&out, "/-- the same, reduced to what matters: (func | origin) of every write whose root is NOT a value created in that call -/\ndef stackNonFreshWrites : List String := [%s]\ndef internalNonFreshWrites : List String := [%s]\n\n", quoteAll(nonFresh(st.writeSet(stackFns))), quoteAll(nonFresh(in.writeSet(internalFns))))
 
